@@ -320,11 +320,12 @@ def run_walk(mod, table, Laue, cc, csys, seed, output_stl, target=45, scale=None
     ev.bad_cell = None
     ev.flip = flip
     syscond = sym_array("sysconditions", (26,))
-    env = _bind_params(ev, fn, {"Laue_class": Laue, "cell_choice": cc, "crystal_system": csys, "unit_cell": sym_array("unit_cell", (6,)),
+    run_ev = ev.home_evaluator(fn)          # (a genhkl_base imported back from a private module runs there)
+    env = _bind_params(run_ev, fn, {"Laue_class": Laue, "cell_choice": cc, "crystal_system": csys, "unit_cell": sym_array("unit_cell", (6,)),
                                 "sysconditions": syscond, "sintlmin": Rat.atom("sintlmin"),
                                 "sintlmax": Rat.atom("sintlmax"), "output_stl": output_stl})
     try:
-        ev.exec_block(core.body_wo_doc(fn), env)
+        run_ev.exec_block(core.body_wo_doc(fn), env)
         out = None
     except _Return as r:
         out = r.value
